@@ -4,6 +4,7 @@ import GoagModel.Spec
 import GoagModel.Serve
 import GoagModel.Ref
 import GoagModel.Dir
+import GoagModel.JsonModel
 /-
   Line-protocol driver: one tab-separated request per line on stdin, one answer line on
   stdout.  The first field selects the model function.  Imports only executable model
@@ -22,6 +23,8 @@ structure State where
   api : Option Serve.ApiM := none
   cors : Bool := false
   leaf : Serve.LeafTable := []
+  schemas : Option Lean.Json := none
+  jleaf : JsonM.LeafDec := []
 
 def unhexD (h : String) : String := (fromHex h).getD "?bad-hex?"
 
@@ -138,6 +141,66 @@ def handle (st : State) (fields : List String) : IO (State × String) := do
         match Serve.plan doc (unhexD baseHex) (unhexD nameHex) (flag corsF) with
         | .error e => pure ({ st with doc := some doc, api := none }, s!"{pkg}\tplan-error:{e}")
         | .ok api => pure ({ st with doc := some doc, api := some api, cors := flag corsF, leaf := [] }, s!"{pkg}\tplan-ok base={api.base}")
+  | ["jsonspec", pkg, path] =>
+    let txt ← IO.FS.readFile path
+    match Lean.Json.parse txt with
+    | .error e => pure ({ st with schemas := none }, s!"{pkg}\tunmodelled:json {e}")
+    | .ok j =>
+      match (JsonM.jfield? j "components").bind (JsonM.jfield? · "schemas") with
+      | some sc => pure ({ st with schemas := some sc, jleaf := [] }, s!"{pkg}\tschemas-ok")
+      | none => pure ({ st with schemas := none }, s!"{pkg}\tunmodelled:no schemas")
+  | ["jleaf", kind, canonHex, res] =>
+    let r := match res.splitOn "|" with
+      | [d, rc] => some (unhexD d, unhexD rc)
+      | _ => none
+    pure ({ st with jleaf := ((kind, unhexD canonHex), r) :: st.jleaf }, "jleaf-ok")
+  | ["jsonenc", id, tname, valHex] =>
+    match st.schemas with
+    | none => pure (st, s!"{id}\tno-model")
+    | some sc =>
+      let res : Except String String := do
+        let tj ← match JsonM.jfield? sc tname with | some t => pure t | none => throw "no such type"
+        let s ← JsonM.readSchema sc 24 tj
+        let vj ← Lean.Json.parse (unhexD valHex)
+        let v ← JsonM.readVal vj
+        let j ← JsonM.toJ s v
+        pure s!"canon={toHex j.canon}\tdump={JsonM.dumpVal s v}\tR:conforms={JsonM.conforms s j}"
+      match res with
+      | .ok r => pure (st, s!"{id}\t{r}")
+      | .error e => pure (st, s!"{id}\tunmodelled:{e}")
+  | ["jsondec", id, tname, _fault, docHex] =>
+    match st.schemas with
+    | none => pure (st, s!"{id}\tno-model")
+    | some sc =>
+      let res : Except String String := do
+        let tj ← match JsonM.jfield? sc tname with | some t => pure t | none => throw "no such type"
+        let s ← JsonM.readSchema sc 24 tj
+        let dj ← Lean.Json.parse (unhexD docHex)
+        let j ← JsonM.readJ dj
+        let ok := JsonM.conforms s j
+        match JsonM.decode st.jleaf s j with
+        | .error (.unmodelled m) => throw m
+        | .error e => pure s!"dec={e.render}\tR:conforms={ok} expect={toHex (JsonM.prune st.jleaf s j).canon}"
+        | .ok v =>
+          match JsonM.toJ s v with
+          | .ok j2 => pure s!"dec=ok dump={JsonM.dumpVal s v} reenc={toHex j2.canon}\tR:conforms={ok} expect={toHex (JsonM.prune st.jleaf s j).canon}"
+          | .error e => throw s!"re-encode: {e}"
+      match res with
+      | .ok r => pure (st, s!"{id}\t{r}")
+      | .error e => pure (st, s!"{id}\tunmodelled:{e}")
+  | ["jsonconf", id, tname, docHex] =>
+    match st.schemas with
+    | none => pure (st, s!"{id}\tno-model")
+    | some sc =>
+      let res : Except String String := do
+        let tj ← match JsonM.jfield? sc tname with | some t => pure t | none => throw "no such type"
+        let s ← JsonM.readSchema sc 24 tj
+        let dj ← Lean.Json.parse (unhexD docHex)
+        let j ← JsonM.readJ dj
+        pure s!"conforms={JsonM.conforms s j}"
+      match res with
+      | .ok r => pure (st, s!"{id}\t{r}")
+      | .error e => pure (st, s!"{id}\tunmodelled:{e}")
   | ["dirrun", id, init, hist] => pure (st, s!"{id}\t{dirRun init hist}")
   | ["leaf", tag, lexHex, res] =>
     pure ({ st with leaf := ((tag, unhexD lexHex), if res == "none" then none else some res) :: st.leaf }, "leaf-ok")
